@@ -3,6 +3,9 @@ import Ruint.Lemmas.Codec.RlpParity
 import Ruint.Lemmas.Codec.Scale
 import Ruint.Lemmas.Codec.Fixed
 import Ruint.Lemmas.Codec.Der
+import Ruint.Lemmas.Codec.RlpTrunc
+import Ruint.Lemmas.Codec.TooLarge
+import Ruint.Lemmas.Codec.DerTrunc
 import Ruint.Lemmas.Codec.Serde
 import Ruint.Lemmas.Codec.Postgres
 /-!
@@ -51,6 +54,20 @@ theorem rlp_rejects_noncanonical (bits : ℕ) (bs : List ℕ) (hbs : IsBytes bs)
     · omega
     · rw [hl] at h4; exact h4 h3
 
+/-- an input denoting a value `≥ 2^bits` is an error: the reference encoding of a too-large value is rejected
+    with `Overflow` (whatever follows it). -/
+theorem rlp_too_large (bits v : ℕ) (tail : List ℕ) (hv : 2 ^ bits ≤ v) (hB : byteLen (byteLen v) ≤ 8) :
+    Rlp.dec bits (Rlp.enc v ++ tail) = .error .overflow := Rlp.dec_too_large bits v tail hv hB
+
+/-- truncated input is an error: EVERY proper prefix of a reference encoding is rejected. -/
+theorem rlp_truncated (bits v k : ℕ) (hv : v < 2 ^ bits) (hB : byteLen (nbytes bits) ≤ 8)
+    (hk : k < (Rlp.enc v).length) : ∃ e, Rlp.dec bits ((Rlp.enc v).take k) = .error e :=
+  Rlp.dec_truncated bits v k hv hB hk
+
+/-- accepting is stable under appending bytes: the decoder only looks at the item it consumes. -/
+theorem rlp_prefix_stable (bits : ℕ) (bs t : List ℕ) (hbs : IsBytes bs) (v n : ℕ) (h : Rlp.dec bits bs = .ok (v, n)) :
+    Rlp.dec bits (bs ++ t) = .ok (v, n) := Rlp.dec_append bits bs t hbs v n h
+
 /-- the error kinds of the brief, each witnessed on the model (non-canonical single byte, leading zero, overflow,
     truncated, list, non-canonical long form, long-form length with a leading zero). -/
 theorem rlp_error_witnesses :
@@ -81,6 +98,14 @@ theorem rlp_parity_rejects_lists (bits : ℕ) (b : ℕ) (rest : List ℕ) (hb : 
     octets, minimal two's complement content with the sign byte exactly when needed). -/
 theorem der_canonical (bits : ℕ) (bs : List ℕ) (hbs : IsBytes bs) (v : ℕ) (h : Der.dec bits bs = .ok v) :
     v < 2 ^ bits ∧ bs = Der.enc v := Der.dec_canonical bits bs hbs v h
+
+/-- the canonical encoding of a value that does not fit the type is rejected. -/
+theorem der_too_large (bits v : ℕ) (hv : 2 ^ bits ≤ v) (hL : (Der.content v).length ≤ 0xfffffff) :
+    Der.dec bits (Der.enc v) = .error .noncanonical := Der.dec_too_large bits v hv hL
+
+/-- truncated input is an error: EVERY proper prefix of a canonical DER INTEGER is rejected. -/
+theorem der_truncated (bits v k : ℕ) (hL : (Der.content v).length ≤ 0xfffffff) (hk : k < (Der.enc v).length) :
+    ∃ e, Der.dec bits ((Der.enc v).take k) = .error e := Der.dec_truncated bits v k hL hk
 
 theorem der_error_witnesses :
     Der.dec 256 [0x02, 0x02, 0x00, 0x01] = .error .noncanonical      -- redundant sign byte
